@@ -18,6 +18,7 @@ type World struct {
 	Log []string
 	Net *Net
 	GS  *GSNet
+	Nodes map[peer.ID]*Node
 }
 
 func NewWorld(s *simrt.Sim) *World {
